@@ -38,6 +38,12 @@ class Registration(Stream):
                 cfg["op"] = op.hex()
                 cfg["opc"] = bytes(a ^ b for a, b in zip(crypto5g.aes(k, op), op)).hex()
                 cfg["opc_text"] = ""
+            if i % 4 >= 2:
+                # RAN node names at which an enclosing X.691 length determinant is exactly 128 (the first two-octet
+                # length): the name IE value for 126 characters, the whole message for the length found by trying
+                lens = self.boundary_names(cfg)
+                ln = lens[(i // 4 + i % 2) % len(lens)]
+                cfg["gnb_name"] = "".join(r.choice("abcdefgh-XYZ019") for _ in range(ln))
             cfgs.append(cfg)
         with cf.ThreadPoolExecutor(max_workers=8) as ex:
             runs = list(ex.map(lambda c: proc.run(self.binary, c, rng.s & 0xffff, strict=True, yaml_text=self.yaml(c)), cfgs))
@@ -63,6 +69,24 @@ class Registration(Stream):
                 cases.append({"cfg": cfg, "idx": idx, "rand": ue.rand, "autn": ue.autn, "sqn": ue.sqn, "amf": ue.amf_field,
                               "supi": ue.supi, "ran": ue.ran, "nas": per_ue.get(ue.ran, [])})
         return cases
+
+    def boundary_names(self, cfg):
+        """name lengths for which some length determinant of this configuration's NGSetupRequest is 128 (found with
+        the real builder through the harness; [126] when that fails)"""
+        out = [126]
+        try:
+            import refamf
+            plmn = bytes(refamf.plmn_bytes(cfg["mcc"], cfg["mnc"])).hex()
+            calls = [{"calls": [{"fn": "GetNGSetupRequest", "gnbid": bytes(cfg["gnb_id"]).hex(), "plmn": plmn,
+                                 "bits": str(cfg["gnb_bitlength"]), "name": ("a" * ln).encode().hex()}], "value": False} for ln in range(1, 151)]
+            res = C.harness_call(self.harness, "getmsg", calls)
+            for ln, o in zip(range(1, 151), res):
+                h = bytes.fromhex(o["results"][0].get("hex", ""))
+                if len(h) > 4 and (h[3] == 0x80 and len(h) - 5 == 128 or len(h) - 4 == 128):
+                    out.append(ln)
+        except Exception:
+            pass
+        return sorted(set(out))
 
     def yaml(self, cfg):
         y = proc.yaml_of(cfg)
@@ -131,4 +155,5 @@ class C01(Check):
             raise RuntimeError(err)
         sys.path.insert(0, os.path.join(C.VERIF, "refamf"))
         self.streams[0].binary = b
+        self.streams[0].harness = C.build_harness()[0]
         super().run()
